@@ -93,9 +93,16 @@ def detect(d, tier="quick"):
     rc, out = sh(["git", "-C", REPO, "apply", patch])
     if rc:
         raise SystemExit("patch does not apply to /repo: " + out)
-    res = {"at": time.strftime("%F %T"), "tier": tier, "checks": {}}
+    res = {"at": time.strftime("%F %T"), "tier": tier, "checks": {},
+           "repo_head": sh(["git", "-C", REPO, "rev-parse", "--short", "HEAD"])[1].strip(),
+           "verif_head": sh(["git", "-C", "/verif", "rev-parse", "--short", "HEAD"])[1].strip()}
+    smart = os.environ.get("SEEDTEST_SMART") == "1"      # neighbouring checks only when the property's own check misses
     try:
         for pid in [meta["property"]] + meta.get("also_checks", []):
+            if smart and pid != meta["property"] and any(
+                    r["exit"] != 0 and r["violations"] and not all(v.rstrip().endswith("no-failing-input-found") for v in r["violations"])
+                    for r in res["checks"].values()):
+                break
             t = time.time()
             rc, out = sh(["./verif", "check", pid, "--tier", tier], cwd="/verif", timeout=7200)
             viol = [l for l in out.split("\n") if l.startswith("VIOLATION")]
